@@ -16,7 +16,7 @@ import (
 var Shapes = []string{
 	"text", "textcrlf", "html", "cyrillic", "cjk", "utf8big", "dna", "numeric", "base64",
 	"elfx86", "pe", "elfarm64", "elfbogus", "pebogus", "machobogus", "wav", "bmp", "ppm", "runs", "zeros",
-	"skewed", "raredom", "ramp255", "ramp256", "smallalpha", "periodic", "random", "magicmix", "repeatblocks", "sorted", "utf8dirty", "longruns", "farmatch",
+	"skewed", "raredom", "ramp255", "ramp256", "smallalpha", "periodic", "random", "magicmix", "repeatblocks", "sorted", "utf8dirty", "longruns", "farmatch", "crlfcut", "constchunks",
 }
 
 var words = strings.Fields(`the of and to a in is that it was for on are as with his they at be this from have or by one had not but what all were
@@ -172,6 +172,40 @@ func Make(shape string, n int, seed int64) []byte {
 			fill := make([]byte, r.Intn(1+n/10))
 			r.Fill(fill)
 			b = append(b, fill...)
+		}
+	case "crlfcut":
+		// a slice of a DOS text file cut between CR and LF at BOTH ends: starts with LF, ends with CR,
+		// every other CR is followed by LF (what a fixed block size does to a CRLF file)
+		b = append(b, '\n')
+		for len(b) < n-1 {
+			w := words[zipf(r, len(words))]
+			b = append(b, w...)
+			if r.Intn(9) == 0 && len(b) < n-3 {
+				b = append(b, '\r', '\n')
+			} else {
+				b = append(b, ' ')
+			}
+		}
+		if len(b) > n-1 {
+			b = b[:n-1]
+		}
+		if n >= 2 {
+			if b[len(b)-1] == '\r' { // do not end with CR CR
+				b[len(b)-1] = ' '
+			}
+			b = append(b, '\r')
+		}
+	case "constchunks":
+		// 16 KiB / 32 KiB regions holding a single byte value alternating with ordinary text: single-symbol
+		// chunks of the static entropy coders in the middle of a block
+		for len(b) < n {
+			c := byte(r.Intn(256))
+			l := []int{16384, 32768, 65536, 4096}[r.Intn(4)]
+			for k := 0; k < l && len(b) < n; k++ {
+				b = append(b, c)
+			}
+			t := Make("text", []int{16384, 32768, 100}[r.Intn(3)], seed+int64(len(b)))
+			b = append(b, t...)
 		}
 	case "dna":
 		col := 0
